@@ -32,12 +32,12 @@ type lane struct {
 
 // Net is the simulated network.
 type Net struct {
-	sim    *Sim
-	lanes  map[laneKey]*lane
-	order  []laneKey // sorted keys of non empty lanes (rebuilt lazily)
-	dirty  bool
-	cut    [][]bool // cut[a][b]: frames from a to b are lost
-	seq    uint64
+	sim      *Sim
+	lanes    map[laneKey]*lane
+	order    []laneKey // sorted keys of non empty lanes (rebuilt lazily)
+	dirty    bool
+	cut      [][]bool // cut[a][b]: frames from a to b are lost
+	seq      uint64
 	InFlight int
 }
 
@@ -133,9 +133,9 @@ type simTransport struct {
 	closed  bool
 }
 
-func (t *simTransport) Name() string  { return "simnet" }
-func (t *simTransport) Start() error  { return nil }
-func (t *simTransport) Close() error  { t.closed = true; return nil }
+func (t *simTransport) Name() string { return "simnet" }
+func (t *simTransport) Start() error { return nil }
+func (t *simTransport) Close() error { t.closed = true; return nil }
 
 var errUnreachable = errors.New("simnet: target unreachable")
 
